@@ -30,6 +30,7 @@ def build_engine(ctx):
     rc, log, path = ctx.go_test_binary(
         "chain", [os.path.join(E, "zz_verif_chaindb_engine_test.go"), os.path.join(E, "zz_verif_journal_test.go")],
         "chaindb.test", overlay_extra={"state/zz_verif_state_shim.go": os.path.join(E, "zz_verif_state_shim.go"),
+                                       "contract/system/zz_verif_sysparams_shim.go": os.path.join(E, "zz_verif_sysparams_shim.go"),
                                        libdb: os.path.join(E, "zz_verif_dbreg.go.txt")})
     if rc != 0:
         raise RuntimeError("chaindb engine build failed:\n" + log[-4000:])
@@ -192,7 +193,14 @@ def coq_block(ids, b):
                                              ";".join(str(ids(t)) for t in b["txs"]), ids(b["root"]))
 
 
-def flatten_step(ids, case, out, st, txuniv, nheights):
+def params_no(pnames, s):
+    """Number of a canonical system-parameter string (0-based, in order of first appearance)."""
+    if s not in pnames:
+        pnames.append(s)
+    return pnames.index(s)
+
+
+def flatten_step(ids, case, out, st, txuniv, nheights, pnames=None):
     names = [b["name"] for b in case["blocks"]]
     v = [RES[st["res"]], ids(st["best"]), st["bestno"], st["latest"] + 1 if st["latest"] >= 0 else 0, ids(st["sdbroot"])]
     hs = list(st["heights"])[:nheights]
@@ -214,6 +222,8 @@ def flatten_step(ids, case, out, st, txuniv, nheights):
     v += [len(st["put"])]
     v += [ids(x) for x in st["del"]]
     v += [st["sync"]]
+    # in-memory system parameters (0 when the engine does not report them)
+    v += [(params_no(pnames, st["params"]) + 1) if (pnames is not None and st.get("params")) else 0]
     v += [(ids(st["anc"]) + 1) if st.get("anc") else 0]
     return v
 
@@ -241,12 +251,25 @@ def coq_case(case, out, f7_fixed):
     arr = ["(%d, %d%%nat)" % (l, names.index(a)) for l, a in zip(libs, case["arrivals"])]
     pre = case.get("pre") or ["ok"] * len(case["arrivals"])
     own = case.get("own") or [False] * len(case["arrivals"])
-    modes = [{"ok": 0, "ts": 1, "sign": 2}[p] + (4 if o else 0) for p, o in zip(pre, own)]
-    exp = [flatten_step(ids, case, out, st, txuniv, nheights) for st in out["steps"]]
-    term = ("(mkCase %s [%s] [%s] [%s] [%s] [%s] %d%%nat %d%%nat %s %s %s [%s])" % (
+    wal = case.get("wal") or [False] * len(case["arrivals"])
+    haswal = bool(case.get("haswal"))
+    modes = [{"ok": 0, "ts": 1, "sign": 2}[p] + (4 if o else 0) + (8 if (w and haswal) else 0)
+             for p, o, w in zip(pre, own, wal)]
+    # system parameters stored in the state of each root (the engine reads them from the true post-state)
+    pnames, ptbl = [], []
+    if g.get("params"):
+        ptbl.append("(%d, %d)" % (ids(g["root"]), params_no(pnames, g["params"])))
+        for b in blocks:
+            if b.get("apply_post") and b.get("params"):
+                ptbl.append("(%d, %d)" % (ids(b["apply_post"]), params_no(pnames, b["params"])))
+    else:
+        pnames = None
+    exp = [flatten_step(ids, case, out, st, txuniv, nheights, pnames) for st in out["steps"]]
+    term = ("(mkCase %s [%s] [%s] [%s] [%s] [%s] %d%%nat %d%%nat %s %s %s %s [%s] [%s])" % (
         gblk, "; ".join(coq_block(ids, b) for b in blocks), "; ".join(tbl), "; ".join(arr), ";".join(str(x) for x in modes),
         ";".join(str(ids(t)) for t in txuniv), nheights, case.get("orphan_cap", 100),
         "true" if f7_fixed else "false", "true" if F27_FIXED else "false", "true" if F28_FIXED else "false",
+        "true" if haswal else "false", "; ".join(ptbl),
         "; ".join("[" + ";".join(str(x) for x in row) + "]" for row in exp)))
     return term, exp, ids
 
